@@ -417,6 +417,9 @@ func (p *streamPool) getOrOpenStream() (*Stream, error) {
 				return stream, nil
 			}
 		}
+		// the pooled stream (or its session) was closed meanwhile: close our end too,
+		// otherwise it stays in the session's stream table and keeps its buffers.
+		stream.Close()
 	}
 
 	stream, err := p.Session().OpenStream()
